@@ -100,7 +100,32 @@ fn division(a: &[u64], b: &[u64], m: i128) -> Verdict {
     let (x0, y0) = (bu(a), bu(b));
     let (ra, rb) = (rn(a), rn(b));
     if rb.is_zero() {
-        return Err("harness: zero divisor outside the generated domain".into());
+        // a zero divisor must reach the documented panic, never the hardware divide (SIGFPE)
+        let _g = guard::Scope::new(mode_of(m));
+        let x = gclone(&x0);
+        let xi = num_bigint::BigInt::from(x.clone());
+        macro_rules! zero_scalar {
+            ($($T:ty),*) => {$(
+                {
+                    let z: $T = 0;
+                    if catch(|| &x / z).is_ok() || catch(|| &x % z).is_ok() || catch(|| { let mut t = gclone(&x); t /= z; t }).is_ok() || catch(|| { let mut t = gclone(&x); t %= z; t }).is_ok()
+                        || catch(|| &xi / z).is_ok() || catch(|| &xi % z).is_ok() {
+                        return Err(format!("division of a {}-digit value by zero {} returned a value", ra.to_u64_digits().len(), stringify!($T)));
+                    }
+                }
+            )*};
+        }
+        zero_scalar!(u8, u16, u32, u64, u128, usize);
+        macro_rules! zero_scalar_signed {
+            ($($T:ty),*) => {$(
+                { let z: $T = 0; if catch(|| &xi / z).is_ok() || catch(|| &xi % z).is_ok() { return Err(format!("BigInt / zero {} returned a value", stringify!($T))); } }
+            )*};
+        }
+        zero_scalar_signed!(i8, i16, i32, i64, i128, isize);
+        if catch(|| &x / &y0).is_ok() || catch(|| &x % &y0).is_ok() || catch(|| x.div_rem(&y0)).is_ok() {
+            return Err("division by a zero BigUint returned a value".into());
+        }
+        return Ok(Info::new(ra.to_u64_digits().len() >= 2).class("guarded_division_by_zero_panics"));
     }
     let (q, r) = ra.divrem(&rb);
     let outcome: Result<(), String> = {
@@ -197,7 +222,7 @@ impl Property for C15 {
         "C15"
     }
     fn rule(&self) -> &'static str {
-        "Every case runs inside a guard-page allocation scope: each operand is cloned there so that its buffer is exactly len digits and ends on an inaccessible page (or, in the second mode, starts right after one); freed blocks become inaccessible as well. guard.addsub: operand lengths 0..=60 in every residue mod 5, equal and unequal, from the C01 families, all add forms and all sub forms of BigUint (the underflowing direction must panic without writing outside its buffers) and BigInt; borrowed operands must equal their saved copies afterwards and results must equal RefInt. guard.div: the C03 families (hardware div). guard.str: to_str_radix for radix 2..=36 on values that include the per-radix largest-power-fitting-a-digit constants r^p, r^p+-1 as top or inner digits (output must be ASCII inside the radix alphabet and equal the reference) and radix 37..=256 (must panic, never return bytes). guard.rand: gen_biguint for bit sizes 0..=260 and 32k/64k+-1 up to 4096 on generated byte streams. Any access outside a buffer kills the worker with SIGSEGV (SIGFPE for a faulting div), which the driver attributes to the journalled case. Non-trivial: shorter operand >= 5 digits (asm loop runs) / divisor >= 2 digits / value >= 2 digits / bit size not a multiple of 64."
+        "Every case runs inside a guard-page allocation scope: each operand is cloned there so that its buffer is exactly len digits and ends on an inaccessible page (or, in the second mode, starts right after one); freed blocks become inaccessible as well. guard.addsub: operand lengths 0..=60 in every residue mod 5, equal and unequal, from the C01 families, all add forms and all sub forms of BigUint (the underflowing direction must panic without writing outside its buffers) and BigInt; borrowed operands must equal their saved copies afterwards and results must equal RefInt. guard.div: the C03 families (hardware div), plus zero divisors of every primitive type and of BigUint, which must reach the documented panic and never the hardware divide. guard.str: to_str_radix for radix 2..=36 on values that include the per-radix largest-power-fitting-a-digit constants r^p, r^p+-1 as top or inner digits (output must be ASCII inside the radix alphabet and equal the reference) and radix 37..=256 (must panic, never return bytes). guard.rand: gen_biguint for bit sizes 0..=260 and 32k/64k+-1 up to 4096 on generated byte streams. Any access outside a buffer kills the worker with SIGSEGV (SIGFPE for a faulting div), which the driver attributes to the journalled case. Non-trivial: shorter operand >= 5 digits (asm loop runs) / divisor >= 2 digits / value >= 2 digits / bit size not a multiple of 64."
     }
     fn technique(&self) -> &'static str {
         "property-based testing (proptest) under a guard-page GlobalAlloc (mmap/mprotect: every operand buffer ends or starts at an inaccessible page), crash attribution by deterministic journal re-run, plus RefInt and alphabet oracles"
@@ -215,7 +240,7 @@ impl Property for C15 {
         });
         let pair = prop_oneof![45 => lens, 55 => gen::addsub_pair(ml.min(60))];
         let addsub = (pair, any::<bool>(), any::<bool>(), 0i128..2).prop_map(|((a, b), sa, sb, m)| Case::new("guard.addsub", vec![Arg::N(a), Arg::N(b), Arg::I(sa as i128), Arg::I(sb as i128), Arg::I(m)]));
-        let div = (gen::div_pair(24), 0i128..2).prop_map(|((a, b), m)| Case::new("guard.div", vec![Arg::N(a), Arg::N(b), Arg::I(m)]));
+        let div = (prop_oneof![92 => gen::div_pair(24), 8 => gen::nat(6).prop_map(|a| (a, vec![]))], 0i128..2).prop_map(|((a, b), m)| Case::new("guard.div", vec![Arg::N(a), Arg::N(b), Arg::I(m)]));
         let radix = prop_oneof![85 => 2u32..=36, 15 => select(vec![0u32, 1, 37, 42, 64, 100, 128, 200, 255, 256, 257])];
         let strv = (radix, vec(gen::digit(), 0..=6), any::<u16>(), any::<u8>(), any::<bool>(), 0i128..2, prop_oneof![80 => Just(0usize), 20 => 60usize..=70]).prop_map(|(r, mut v, pos, which, neg, m, extra)| {
             // plant one of the radix-power constants as a digit (the top digit in half of the cases)
